@@ -13,6 +13,7 @@
 #include <Spectra/MatOp/DenseGenMatProd.h>
 #include <Spectra/MatOp/SparseGenMatProd.h>
 #include <Spectra/MatOp/DenseSymShiftSolve.h>
+#include <Spectra/DavidsonSymEigsSolver.h>
 #include <atomic>
 #include <memory>
 #include <thread>
@@ -40,6 +41,7 @@ struct JobResult
 };
 
 // kind 0: SymEigsSolver/DenseSymMatProd   1: GenEigsSolver/DenseGenMatProd   2: SymEigsSolver/SparseSymMatProd   3: GenEigsSolver/SparseGenMatProd
+//      4: DavidsonSymEigsSolver/DenseSymMatProd   5: DavidsonSymEigsSolver/SparseSymMatProd (block products through operator*)
 struct Job
 {
     int kind, n, nev, ncv, rule;
@@ -71,9 +73,42 @@ static JobResult run_with_op(Op& op, const Job& j)
     return r;
 }
 
+// Davidson: no init(); the operator is used through its block product operator* and its diagonal
+template <typename Op>
+static JobResult run_dav(Op& op, const Job& j)
+{
+    StreamSink sink;
+    Spectra::verif::sink() = &sink;
+    JobResult r;
+    {
+        DavidsonSymEigsSolver<Op> eigs(op, j.nev);
+        eigs.compute((SortRule) j.rule, 100, 1e-8);
+        Digest g;
+        g.mat(eigs.eigenvalues());
+        g.mat(eigs.eigenvectors());
+        g.i64((ll) eigs.num_iterations());
+        r.res = g.word30();
+        r.info = (ll) eigs.info();
+    }
+    Spectra::verif::sink() = NULL;
+    r.ev = sink.g.word30();
+    r.nevents = sink.count;
+    return r;
+}
+
 // own operator per run
 static JobResult run_private(const Job& j)
 {
+    if (j.kind == 4)
+    {
+        DenseSymMatProd<double> op(j.A);
+        return run_dav(op, j);
+    }
+    if (j.kind == 5)
+    {
+        SparseSymMatProd<double> op(j.As);
+        return run_dav(op, j);
+    }
     if (j.kind == 0)
     {
         DenseSymMatProd<double> op(j.A);
@@ -103,7 +138,20 @@ static Job make_job(int kind, Rng& r, int variant)
     j.ncv = std::min(j.n, 2 * j.nev + 3 + r.below(6));
     j.rule = gen ? 0 : (r.below(2) ? 0 : 3);
     MatL A = MatL::Zero(j.n, j.n);
-    if (variant == 1)
+    if (kind >= 4)
+    {
+        // Davidson: diagonally dominant symmetric matrix
+        j.nev = 2 + r.below(3);
+        j.rule = r.below(2) ? 3 : 7;
+        for (int i = 0; i < j.n; i++)
+        {
+            A(i, i) = (LD)(i + 1) + 0.1L * r.sym();
+            for (int k = 0; k < i; k++)
+                if (kind == 4 || r.below(100) < 25)
+                    A(i, k) = A(k, i) = 0.01L * r.sym();
+        }
+    }
+    else if (variant == 1)
     {
         // few distinct eigenvalues / low rank: the Krylov sequence breaks down and expand_basis() runs at (almost) every step
         const int rk = 2 + r.below(2);
@@ -153,7 +201,7 @@ void dispatch(const Desc& d)
     {
         const int T = tcounts[round % 4];
         const int shared = (round % 2);          // odd rounds: all threads share ONE const product wrapper
-        const int kind = (round / 2) % 4;
+        const int kind = (round / 2) % 6;
         const int variant = (round % 3 == 2) ? 1 : 0;
         std::vector<Job> jobs;
         if (shared)
@@ -164,6 +212,8 @@ void dispatch(const Desc& d)
                 Job j = base;   // same matrix, different (nev, ncv) per thread
                 j.nev = 1 + (t % 3);
                 j.ncv = std::min(j.n, 2 * j.nev + 4 + (t % 5));
+                if (kind >= 4)
+                    j.rule = (t % 2) ? 3 : 7;
                 jobs.push_back(j);
             }
         }
@@ -179,7 +229,8 @@ void dispatch(const Desc& d)
             std::unique_ptr<SparseGenMatProd<double> > s3;
             if (shared)
             {
-                if (kind == 0) s0.reset(new DenseSymMatProd<double>(jobs[0].A));
+                if (kind == 0 || kind == 4) s0.reset(new DenseSymMatProd<double>(jobs[0].A));
+                if (kind == 5) s2.reset(new SparseSymMatProd<double>(jobs[0].As));
                 if (kind == 1) s1.reset(new DenseGenMatProd<double>(jobs[0].A));
                 if (kind == 2) s2.reset(new SparseSymMatProd<double>(jobs[0].As));
                 if (kind == 3) s3.reset(new SparseGenMatProd<double>(jobs[0].As));
@@ -198,6 +249,10 @@ void dispatch(const Desc& d)
                         spin = spin - 1;
                     if (!shared)
                         con[t] = run_private(jobs[t]);
+                    else if (kind == 4)
+                        con[t] = run_dav(*s0, jobs[t]);
+                    else if (kind == 5)
+                        con[t] = run_dav(*s2, jobs[t]);
                     else if (kind == 0)
                         con[t] = run_with_op<SymEigsSolver<DenseSymMatProd<double> > >(*s0, jobs[t]);
                     else if (kind == 1)
